@@ -154,7 +154,7 @@ func cmdList(cfg Config) int {
 	for _, k := range keys {
 		c := cs.Funcs[k]
 		tags := map[string]bool{}
-		for _, cls := range [][]*Clause{c.Requires, c.Ensures, c.Invs, c.Asserts, c.OnPanic} {
+		for _, cls := range [][]*Clause{c.Requires, c.Ensures, c.Invs, c.Asserts, c.OnPanic, c.LineHooks} {
 			for _, cl := range cls {
 				for _, t := range cl.Tags {
 					tags[t] = true
